@@ -85,6 +85,9 @@ impl Prop for C14 {
     fn run(&self, dom: usize, idx: u64, cx: &mut Cx) {
         run_returned("C14", &self.sets[dom], idx, cx, &gen);
     }
+    fn abort_is_violation(&self) -> bool {
+        true
+    }
     fn rule(&self) -> String {
         "sweep: every title x store contexts (|store| <= limit) x {every word of >= 3 characters split at every point where both halves begin and end with a letter or digit, typed as two words; every adjacent word pair separated by exactly one separator character, typed run together, when the public tokeniser reads it as one word of >= 3 characters whose stem length equals its length}. Every generated query is non-trivial.".into()
     }
